@@ -95,8 +95,46 @@ def gen_script_c17(seed, tier):
         g.models[name] = model
         ops.append(op)
 
+    families = []  # past leaf-family constructions, re-issued with fresh values
+
+    def revalue(op):
+        """the same construction (same addresses) with new values"""
+        import copy as _copy
+
+        op = _copy.deepcopy(op)
+        op.pop("out", None)
+        k = op["op"]
+        if k in ("kw", "d"):
+            def rv(d):
+                return {kk: (rv(v) if isinstance(v, dict) else g.val()) for kk, v in d.items()}
+
+            op["d"] = rv(op["d"])
+            model = {}
+            for kk, v in op["d"].items():
+                if isinstance(v, dict):
+                    for k2, v2 in v.items():
+                        model[(kk, k2)] = [True, v2]
+                else:
+                    model[(kk,)] = [True, v]
+            return op, model
+        if k == "set":
+            op["v"] = g.val()
+            return op, {tuple(op["addr"]): [True, op["v"]]}
+        if k == "slice":
+            op["vals"] = [g.val() for _ in op["vals"]]
+            return op, {tuple(op["pre"] + [i] + op["post"]): [True, v] for i, v in enumerate(op["vals"])}
+        op["vals"] = [g.val() for _ in op["vals"]]
+        return op, {tuple(op["pre"] + [i] + op["post"]): [True, v] for i, v in zip(op["idxs"], op["vals"])}
+
     def fresh_leaf_entries():
         """one construction of a small map; returns (op, model)"""
+        if families and rng.random() < 0.45:
+            return revalue(rng.choice(families))
+        op, model = _fresh_leaf_entries()
+        families.append(op)
+        return op, model
+
+    def _fresh_leaf_entries():
         for _ in range(50):
             pre = g.static_path()
             st = rng.choice(["scalar", "scalar", "idx", "dense", "sparse"])
@@ -317,7 +355,9 @@ def gen_script_c19(seed, tier):
             ops.append({"op": "unmask", "a": rng.choice(avail), "d": d, "out": out})
         else:
             ops.append({"op": "flatten", "a": rng.choice(avail), "out": out})
-    reps = ["concrete", "array", "jit"] if not vec else ["array", "jit", "vmap"]
+    # "mixed": every flag independently a concrete Python bool or an array (the
+    # concrete shortcuts of | ^ ~ meet the array paths in one expression)
+    reps = ["concrete", "array", "mixed", "jit"] if not vec else ["array", "jit", "vmap"]
     return {"v": 1, "pid": "C19", "tier": tier, "seed": seed, "vec": n, "pytree": pytree, "leaves": leaves, "ops": ops, "replicas": reps}
 
 
@@ -610,6 +650,9 @@ def _exec_c19(script):
                 got = {k: onf(v, want[k]) for k, v in got.items()}
             elif rep == "array":
                 got = real_run(lambda key, f: jnp.asarray(f, dtype=bool))
+                got = {k: onf(v, want[k]) for k, v in got.items()}
+            elif rep == "mixed":
+                got = real_run(lambda key, f: bool(f) if H(script["seed"], str(key)) % 2 else jnp.asarray(f, dtype=bool))
                 got = {k: onf(v, want[k]) for k, v in got.items()}
             elif rep == "jit":
                 keys = sorted(allflags, key=str)
